@@ -233,6 +233,14 @@ def run_e2e(case):
         files.setdefault(f"{'abc'[fi]}.json", []).append({k: v for k, v in e.items() if k != "u"})
     if not files:
         files = {"a.json": []}
+    # late_meta: metadata records written BEHIND the slices of their file (thread names registered late, a trailing
+    # metadata block): never counted, never dropped
+    if case.get("late_meta") and case["events"]:
+        t_last = max(e["ts"] for e in case["events"])
+        last_file = f"{'abc'[split[-1]]}.json"
+        for k in range(case["late_meta"]):
+            files[last_file].append({"ph": "M", "name": "thread_name", "pid": files[last_file][0]["pid"], "tid": 7,
+                                     "ts": t_last + 1 + k, "args": {"name": f"late_meta_{k}"}})
     # rerun: the SAME Acelyzer object analyses the inputs a second time (the documented API allows it); the
     # selection of the second run is the one the statement describes, not a continuation of the first
     # `extra`: switches the selection does not depend on (they register or leave out LATER stages)
@@ -442,7 +450,9 @@ LITS = ["foo", "bar", "Rdma", "RDMA", "Recv", "Receive", "Exec", "a", "x", "16",
 LIKELY = {"name": ["foo", "Rdma", "Recv", "Exec", "RDMA", "Receive", "a", "x", "Cmpt_Exec", "bar"],
           "args.Type": ["foo", "bar", "3", "attrfoo", "X"], "args.Power": ["16", "0x10", "31", "-16", "7", "abc", "0", "3"],
           "args.TS3": ["3", "7", "0x3"], "args.uid": ["u1", "u2", "u"], "args.bytes": ["16", "7", "3"], "args.Bytes": ["16"],
-          "ph": ["X", "M"], "pid": ["0", "16", "1"], "args.k": ["", "a"], "cat": ["foo", "x"], "args.Tag": ["x"]}
+          "ph": ["X", "M"], "pid": ["0", "16", "1"], "args.k": ["", "a"], "cat": ["foo", "x"], "args.Tag": ["x"],
+          "cname": ["bad", "good", "a", "warm"], "comment": ["warm-up", "bad", "o"], "args.cname": ["bad", "good"],
+          "args.comment": ["warm", "."]}
 
 
 def gen_rx(rng, attr=None):
@@ -454,7 +464,7 @@ def gen_rx(rng, attr=None):
 
 
 ATTRS = ["name", "args.Type", "args.Power", "args.TS3", "args.uid", "args.bytes", "args.Bytes", "ph", "pid", "args.k", "cat",
-         "args.missing", "nokey", "args", "args.Tag"]
+         "args.missing", "nokey", "args", "args.Tag", "cname", "comment", "args.cname", "args.comment"]
 
 
 def gen_filter(rng):
@@ -524,6 +534,9 @@ def gen_stream(rng, n):
                    args=args, attr=attr)
             if rng.random() < 0.2:
                 e["cat"] = rng.choice(["foo", "x"])
+            if rng.random() < 0.2:
+                # an optional / free-form top-level entry of the trace-event format (colour name, comment)
+                e[rng.choice(["cname", "comment"])] = rng.choice(["bad", "good", "warm-up"])
             evs.append(e)
         elif k < 0.82:
             evs.append(ev(u, "M", rng.choice([0, ts]), None, "process_name"))
@@ -593,6 +606,12 @@ def check_e2e(ctx: Ctx, case, verbose=False):
     elif sorted(got) != sorted(want):
         ctx.violation("e2e-selection", f"exported uids {sorted(got)} but the statement selects {sorted(want)}",
                       dict(case, e2e=True))
+    elif case.get("late_meta") and case["events"]:
+        names = sorted(e["args"]["name"] for e in res["events"] if e.get("ph") == "M" and isinstance(e.get("args"), dict)
+                       and str(e["args"].get("name", "")).startswith("late_meta_"))
+        if names != [f"late_meta_{k}" for k in range(case["late_meta"])]:
+            ctx.violation("e2e-metadata-dropped", f"{case['late_meta']} metadata record(s) follow the slices in the input, "
+                          f"exported: {names}", dict(case, e2e=True))
 
 
 def oracle_on_case(ctx: Ctx, case, verbose=False):
@@ -677,6 +696,12 @@ def run(ctx: Ctx):
             case["split"] = split
         if rng.random() < 0.25:
             case["rerun"] = True
+        if evs and rng.random() < 0.3:
+            # a filter that names a free-form top-level entry some slices carry (or its args. twin, which none has)
+            for e in rng.sample(evs, max(1, len(evs) // 2)):
+                e["cname"] = rng.choice(["bad", "good"])
+            case["filter"] = rng.choice(["cname:^bad$", "args.cname:.", "cname:ba,name:zzz", "args.cname:bad,cname:good"])
+        case["late_meta"] = rng.choice([0, 1, 2])
         case["extra"] = rng.choice([[], [], ["--keep_prep"], ["--drop_globals"], ["-t"], ["--disable_tb"], ["-k"], ["-M"],
                                     ["--flow"], ["-C", "power_ts4"], ["--drop_globals", "-t", "--keep_prep"]])
         case["limit"].pop("no_count_types", None)
